@@ -16,7 +16,7 @@ __CPROVER_requires(XV_CTL_Z_LO)
 __CPROVER_requires(XV_CTL_Z_HI)
 __CPROVER_requires(XV_CSTR64(name))
 __CPROVER_requires(capacity <= 0x7fffffffUL && __CPROVER_w_ok(type, sizeof(*type)) && __CPROVER_w_ok(value, capacity))
-__CPROVER_assigns(xv_errno, *type, __CPROVER_object_upto(value, capacity + (size_t)xv_ctl_z), xv_ctl_get_rv, xv_ctl_get_errno, xv_ctl_get_type, xv_ctl_get_j, xv_ctl_get_calls)
+__CPROVER_assigns(xv_errno, *type, __CPROVER_object_upto(value, capacity + (size_t)xv_ctl_z), xv_ctl_get)
 __CPROVER_ensures(__CPROVER_return_value >= -1 && (__CPROVER_return_value < 0 || (size_t)__CPROVER_return_value <= capacity))
 __CPROVER_ensures(__CPROVER_return_value == xv_ctl_get_rv && xv_ctl_get_calls == __CPROVER_old(xv_ctl_get_calls) + 1)
 __CPROVER_ensures(__CPROVER_return_value < 0 ==> (xv_errno > 0 && xv_errno == xv_ctl_get_errno))
@@ -25,15 +25,20 @@ __CPROVER_ensures(__CPROVER_return_value >= 0 ==> ((int)*type == xv_ctl_get_type
 ;
 
 /* ------------------------------------------------------------------ process_get_attr */
-#define PGA_CFM(r) ((r)->get_attr_cfm.attr)
+/* The members of the anonymous union of struct ctl_proto_msg are reached BY ADDRESS: for `msg->get_attr_cfm.attr.value_len` CBMC
+ * reads the whole 37 896-byte union and projects, which at a symbolic address (a session of struct ctl) is 37 896 array
+ * reads per mention (process_client ran out of memory). */
+#define XV_AT(T, base, off) ((T *)((uint8_t *)(base) + (off)))
+#define PGA_CFM(r) (*XV_AT(struct ctl_proto_attr, (r), offsetof(struct ctl_proto_msg, get_attr_cfm.attr)))
+#define PGA_REJ_ERRNO(r) (*XV_AT(int, (r), offsetof(struct ctl_proto_msg, get_attr_rej.rej_errno)))
 static void process_get_attr(struct xcm_socket *socket, struct ctl_proto_get_attr_req *req, struct ctl_proto_msg *response)
 __CPROVER_requires(XV_CTL_Z_LO)
 __CPROVER_requires(XV_CTL_Z_HI)
 __CPROVER_requires(__CPROVER_is_fresh(socket, sizeof(*socket)) && __CPROVER_is_fresh(req, sizeof(*req)) && __CPROVER_is_fresh(response, XV_CTL_SIZEOF(*response)))
 __CPROVER_requires(XV_CTL_CNT_OK(xv_ctl_get_calls))
-__CPROVER_assigns(xv_errno, xv_ctl_get_rv, xv_ctl_get_errno, xv_ctl_get_type, xv_ctl_get_j, xv_ctl_get_calls)
-__CPROVER_assigns(response->type, response->get_attr_rej.rej_errno, PGA_CFM(response).value_type, PGA_CFM(response).value_len, \
-                  __CPROVER_object_upto(PGA_CFM(response).any_value, CTL_ATTR_VALUE_MAX + (size_t)xv_ctl_z))
+__CPROVER_assigns(xv_errno, xv_ctl_get)
+__CPROVER_assigns(response->type, PGA_REJ_ERRNO(response), PGA_CFM(response).value_type, PGA_CFM(response).value_len, \
+                  __CPROVER_object_upto(&XV_ANYV(PGA_CFM(response), 0), CTL_ATTR_VALUE_MAX + (size_t)xv_ctl_z))
 __CPROVER_ensures(xv_errno == __CPROVER_old(xv_errno))
 __CPROVER_ensures(xv_ctl_get_calls == __CPROVER_old(xv_ctl_get_calls) || xv_ctl_get_calls == __CPROVER_old(xv_ctl_get_calls) + 1)
 /* PO[C14] process_get_attr.reply_type */
@@ -42,14 +47,14 @@ __CPROVER_ensures(response->type == ctl_proto_type_get_attr_cfm || response->typ
 __CPROVER_ensures((XV_CSTR64(req->attr_name) && !XV_IS_TLS_KEY(req->attr_name)) ==> (xv_ctl_get_calls == __CPROVER_old(xv_ctl_get_calls) + 1 && (xv_ctl_get_rv >= 0 \
         ? (response->type == ctl_proto_type_get_attr_cfm && PGA_CFM(response).value_len == (size_t)xv_ctl_get_rv && \
            (int)PGA_CFM(response).value_type == xv_ctl_get_type && PGA_CFM(response).value_len <= CTL_ATTR_VALUE_MAX && \
-           (xv_ctl_j < (size_t)xv_ctl_get_rv ==> PGA_CFM(response).any_value[xv_ctl_j] == xv_ctl_get_j)) \
-        : (response->type == ctl_proto_type_get_attr_rej && response->get_attr_rej.rej_errno == xv_ctl_get_errno && xv_ctl_get_errno > 0))))
+           (xv_ctl_j < (size_t)xv_ctl_get_rv ==> XV_ANYV(PGA_CFM(response), xv_ctl_j) == xv_ctl_get_j)) \
+        : (response->type == ctl_proto_type_get_attr_rej && PGA_REJ_ERRNO(response) == xv_ctl_get_errno && xv_ctl_get_errno > 0))))
 /* PO[C14] process_get_attr.tls_key_never_disclosed */
-__CPROVER_ensures(XV_IS_TLS_KEY(req->attr_name) ==> (response->type == ctl_proto_type_get_attr_rej && response->get_attr_rej.rej_errno == EACCES && \
-        (xv_ctl_j < CTL_ATTR_VALUE_MAX ==> PGA_CFM(response).any_value[xv_ctl_j] == 0)))
+__CPROVER_ensures(XV_IS_TLS_KEY(req->attr_name) ==> (response->type == ctl_proto_type_get_attr_rej && PGA_REJ_ERRNO(response) == EACCES && \
+        (xv_ctl_j < CTL_ATTR_VALUE_MAX ==> XV_ANYV(PGA_CFM(response), xv_ctl_j) == 0)))
 /* a name without terminator inside attr_name[64] is never handed to the attribute code: the query is rejected */
 /* PO[C14] process_get_attr.unterminated_name_rejected */
-__CPROVER_ensures(!XV_CSTR64(req->attr_name) ==> (response->type == ctl_proto_type_get_attr_rej && response->get_attr_rej.rej_errno > 0 && \
+__CPROVER_ensures(!XV_CSTR64(req->attr_name) ==> (response->type == ctl_proto_type_get_attr_rej && PGA_REJ_ERRNO(response) > 0 && \
         xv_ctl_get_calls == __CPROVER_old(xv_ctl_get_calls)))
 ;
 
@@ -71,7 +76,7 @@ __CPROVER_ensures(AA_CFM(data)->attrs_len <= CTL_PROTO_MAX_ATTRS && \
                   AA_CFM(data)->attrs_len == xv_ctl_g_len0 + (AA_ADDS(attr_name, xv_ctl_g_namelen, len) ? 1 : 0))
 /* PO[C14] add_attr.entry_equals_in_process */
 __CPROVER_ensures(AA_ADDS(attr_name, xv_ctl_g_namelen, len) ==> (AA_ENTRY(data).value_type == type && AA_ENTRY(data).value_len == len && \
-        (xv_mc < len ==> AA_ENTRY(data).any_value[xv_mc] == ((const uint8_t *)value)[xv_mc]) && \
+        (xv_mc < len ==> XV_ANYV(AA_ENTRY(data), xv_mc) == ((const uint8_t *)value)[xv_mc]) && \
         (xv_ctl_j <= xv_ctl_g_namelen ==> AA_ENTRY(data).name[xv_ctl_j] == attr_name[xv_ctl_j]) && AA_ENTRY(data).name[xv_ctl_g_namelen] == 0))
 ;
 
@@ -79,7 +84,7 @@ __CPROVER_ensures(AA_ADDS(attr_name, xv_ctl_g_namelen, len) ==> (AA_ENTRY(data).
  * xcm_attr_get_all is the stub of env/ctl_env.h: ANY number of callbacks with ANY name/type/value; it counts the reportable
  * ones (xv_ctl_all_n) and records the xv_ctl_i-th of them.  The reply must be typed, list min(n, 64) attributes, and
  * its xv_ctl_i-th entry must be the xv_ctl_i-th reportable attribute -- whatever pending_response held before. */
-#define PGAA_CFM(r) ((r)->get_all_attr_cfm)
+#define PGAA_CFM(r) (*XV_AT(struct ctl_proto_get_all_attr_cfm, (r), offsetof(struct ctl_proto_msg, get_all_attr_cfm)))
 static void process_get_all_attr(struct xcm_socket *socket, struct ctl_proto_msg *response)
 __CPROVER_requires(XV_CTL_Z_LO)
 __CPROVER_requires(XV_CTL_Z_HI)
@@ -125,13 +130,15 @@ _Bool xv_ctl_g_foreign; int xv_ctl_g_fev;
                           xv_ctl_ev[xv_ctl_reg] == xv_ctl_g_fev && !CTL_OWNS(ctl, xv_ctl_reg)))
 /* ghost state every session-level function may write */
 #define CTL_EP_GHOSTS xv_errno, XV_CTL_EP_OBJS, xv_ctl_ep_ops
-#define CTL_SESSION(client, ctl) (xv_ctl_ci >= 0 && xv_ctl_ci < (ctl)->num_clients && (client) == &CTL_C(ctl, xv_ctl_ci))
+/* client points at one of the sessions in use (pointer_in_range gives symex the points-to fact, the equalities the exact slot) */
+#define CTL_SESSION(client, ctl) (__CPROVER_pointer_in_range_dfcc(&CTL_C(ctl, 0), (client), &CTL_C(ctl, 1)) && \
+        (((ctl)->num_clients >= 1 && (client) == &CTL_C(ctl, 0)) || ((ctl)->num_clients >= 2 && (client) == &CTL_C(ctl, 1))))
 #define CTL_SAME(x) ((x) == __CPROVER_old(x))
 #define CTL_INC(x) ((x) == __CPROVER_old(x) + 1)
 #define CTL_MSG_SIZE sizeof(struct ctl_proto_msg)
 
 /* ------------------------------------------------------------------ client_send: hand the pending reply to send(2) */
-#define CS_GHOSTS xv_ctl_send_calls, xv_ctl_send_fd, xv_ctl_send_len, xv_ctl_send_rc, xv_ctl_send_errno, xv_ctl_send_buf, xv_ctl_send_j
+#define CS_GHOSTS xv_ctl_snd
 static int client_send(struct client *client, struct ctl *ctl)
 __CPROVER_requires(XV_CTL_Z_LO)
 __CPROVER_requires(XV_CTL_Z_HI)
@@ -151,8 +158,7 @@ __CPROVER_ensures(xv_ctl_send_rc >= 0 \
 /* ------------------------------------------------------------------ client_receive: one request, ARBITRARY bytes of ARBITRARY length
  * xv_ctl_recv_rc is what recv(2) returned (-1 | 0..sizeof msg), xv_ctl_req_type the type field of the datagram,
  * xv_ctl_req_key / xv_ctl_req_cstr what its attr_name[64] held. */
-#define CR_GHOSTS xv_ctl_readable_calls, xv_ctl_readable, xv_ctl_recv_calls, xv_ctl_recv_fd, xv_ctl_recv_rc, xv_ctl_recv_errno, xv_ctl_req_type, xv_ctl_req_cstr, xv_ctl_req_key, \
-                  xv_ctl_get_rv, xv_ctl_get_errno, xv_ctl_get_type, xv_ctl_get_j, xv_ctl_get_calls, XV_CTL_ALL_GHOSTS
+#define CR_GHOSTS xv_ctl_rd, xv_ctl_rcv, xv_ctl_get, XV_CTL_ALL_GHOSTS
 #define CR_FULL (xv_ctl_readable && xv_ctl_recv_rc == (long)CTL_MSG_SIZE)
 #define CR_NO_ATTR_CALL (CTL_SAME(xv_ctl_get_calls) && CTL_SAME(xv_ctl_all_calls))
 #define CR_UNTOUCHED(client) ((client)->is_response_pending == __CPROVER_old((client)->is_response_pending) && CR_NO_ATTR_CALL)
@@ -179,13 +185,13 @@ __CPROVER_ensures((CR_FULL && xv_ctl_req_type == ctl_proto_type_get_attr_req) ==
         ((xv_ctl_req_cstr && !xv_ctl_req_key) ==> (CTL_INC(xv_ctl_get_calls) && (xv_ctl_get_rv >= 0 \
             ? (client->pending_response.type == ctl_proto_type_get_attr_cfm && PGA_CFM(&client->pending_response).value_len == (size_t)xv_ctl_get_rv && \
                (int)PGA_CFM(&client->pending_response).value_type == xv_ctl_get_type && \
-               (xv_ctl_j < (size_t)xv_ctl_get_rv ==> PGA_CFM(&client->pending_response).any_value[xv_ctl_j] == xv_ctl_get_j)) \
-            : (client->pending_response.type == ctl_proto_type_get_attr_rej && client->pending_response.get_attr_rej.rej_errno == xv_ctl_get_errno)))) && \
+               (xv_ctl_j < (size_t)xv_ctl_get_rv ==> XV_ANYV(PGA_CFM(&client->pending_response), xv_ctl_j) == xv_ctl_get_j)) \
+            : (client->pending_response.type == ctl_proto_type_get_attr_rej && PGA_REJ_ERRNO(&client->pending_response) == xv_ctl_get_errno)))) && \
         (!xv_ctl_req_cstr ==> (client->pending_response.type == ctl_proto_type_get_attr_rej && CTL_SAME(xv_ctl_get_calls)))))
 /* PO[C14] client_receive.tls_key_never_disclosed */
 __CPROVER_ensures((CR_FULL && xv_ctl_req_type == ctl_proto_type_get_attr_req && xv_ctl_req_key) ==> \
-        (client->pending_response.type == ctl_proto_type_get_attr_rej && client->pending_response.get_attr_rej.rej_errno == EACCES && \
-         (xv_ctl_j < CTL_ATTR_VALUE_MAX ==> PGA_CFM(&client->pending_response).any_value[xv_ctl_j] == 0)))
+        (client->pending_response.type == ctl_proto_type_get_attr_rej && PGA_REJ_ERRNO(&client->pending_response) == EACCES && \
+         (xv_ctl_j < CTL_ATTR_VALUE_MAX ==> XV_ANYV(PGA_CFM(&client->pending_response), xv_ctl_j) == 0)))
 /* PO[C14] client_receive.get_all_reply */
 __CPROVER_ensures((CR_FULL && xv_ctl_req_type == ctl_proto_type_get_all_attr_req) ==> (__CPROVER_return_value == 0 && client->is_response_pending && \
         xv_ctl_ev[client->fd_reg_id] == EPOLLOUT && CTL_SAME(xv_ctl_get_calls) && CTL_INC(xv_ctl_all_calls) && \
@@ -208,7 +214,7 @@ __CPROVER_ensures(__CPROVER_old(client->is_response_pending) \
 ;
 
 /* ------------------------------------------------------------------ accept_client: room for one more session */
-#define AC_GHOSTS xv_ctl_readable_calls, xv_ctl_readable, xv_ctl_accept_rc, xv_ctl_fds_made
+#define AC_GHOSTS xv_ctl_rd, xv_ctl_acc
 #define AC_NEW(ctl) CTL_C(ctl, __CPROVER_old((ctl)->num_clients))
 static void accept_client(struct ctl *ctl)
 __CPROVER_requires(XV_CTL_Z_LO)
@@ -226,27 +232,24 @@ __CPROVER_ensures((xv_ctl_readable && xv_ctl_accept_rc >= 0) \
 ;
 
 /* ------------------------------------------------------------------ remove_client: close one session, keep the other intact */
-#define RC_GHOSTS xv_ctl_close_calls, xv_ctl_closed_fd
-int xv_ctl_g_fd, xv_ctl_g_reg;                  /* ghost constants: descriptor / registration id of the session being removed */
-int xv_ctl_g_ofd, xv_ctl_g_oreg; _Bool xv_ctl_g_opend; uint8_t xv_ctl_g_oj;   /* ... and of the OTHER session (fd, reg, pending flag, reply byte xv_ctl_j) */
+#define RC_GHOSTS xv_ctl_cls
 #define RC_OTHER(ctl, idx) CTL_C(ctl, 1 - (idx))
 static void remove_client(struct ctl *ctl, int client_idx)
 __CPROVER_requires(XV_CTL_Z_LO)
 __CPROVER_requires(XV_CTL_Z_HI)
 __CPROVER_requires(CTL_MEM(ctl) && CTL_INV(ctl) && CTL_GHOST_RANGE && CTL_FOREIGN(ctl) && client_idx >= 0 && client_idx < ctl->num_clients)
-__CPROVER_requires(CTL_C(ctl, client_idx).fd == xv_ctl_g_fd && CTL_C(ctl, client_idx).fd_reg_id == xv_ctl_g_reg)
-__CPROVER_requires(ctl->num_clients == 2 ==> (RC_OTHER(ctl, client_idx).fd == xv_ctl_g_ofd && RC_OTHER(ctl, client_idx).fd_reg_id == xv_ctl_g_oreg && \
-        RC_OTHER(ctl, client_idx).is_response_pending == xv_ctl_g_opend && \
-        (xv_ctl_j < CTL_MSG_SIZE ==> ((const uint8_t *)&RC_OTHER(ctl, client_idx).pending_response)[xv_ctl_j] == xv_ctl_g_oj)))
 __CPROVER_assigns(CTL_EP_GHOSTS, RC_GHOSTS, ctl->num_clients, __CPROVER_object_upto(&CTL_C(ctl, 0), XV_CTL_SIZEOF(struct client)))
-__CPROVER_ensures(CTL_INV(ctl) && CTL_FOREIGN(ctl))
+__CPROVER_ensures(CTL_INV(ctl) && CTL_FOREIGN(ctl) && CTL_HDR_SAME(ctl))
 /* PO[C14] remove_client.session_closed */
-__CPROVER_ensures(ctl->num_clients == __CPROVER_old(ctl->num_clients) - 1 && CTL_INC(xv_ctl_close_calls) && xv_ctl_closed_fd == xv_ctl_g_fd && \
-                  !xv_ctl_live[xv_ctl_g_reg])
+__CPROVER_ensures(ctl->num_clients == __CPROVER_old(ctl->num_clients) - 1 && CTL_INC(xv_ctl_close_calls) && \
+                  xv_ctl_closed_fd == __CPROVER_old(CTL_C(ctl, client_idx).fd) && !xv_ctl_live[__CPROVER_old(CTL_C(ctl, client_idx).fd_reg_id)])
+/* the session that stays is slot 0 afterwards and is what it was: descriptor, registration, pending flag, and (byte at the
+ * arbitrary offset xv_mc of its struct client, i.e.) its pending reply */
 /* PO[C14] remove_client.other_session_intact */
-__CPROVER_ensures(ctl->num_clients == 1 ==> (CTL_C(ctl, 0).fd == xv_ctl_g_ofd && CTL_C(ctl, 0).fd_reg_id == xv_ctl_g_oreg && \
-        CTL_C(ctl, 0).is_response_pending == xv_ctl_g_opend && \
-        (xv_ctl_j < CTL_MSG_SIZE ==> ((const uint8_t *)&CTL_C(ctl, 0).pending_response)[xv_ctl_j] == xv_ctl_g_oj)))
+__CPROVER_ensures(ctl->num_clients == 1 ==> (CTL_C(ctl, 0).fd == __CPROVER_old(RC_OTHER(ctl, client_idx).fd) && \
+        CTL_C(ctl, 0).fd_reg_id == __CPROVER_old(RC_OTHER(ctl, client_idx).fd_reg_id) && \
+        CTL_C(ctl, 0).is_response_pending == __CPROVER_old(RC_OTHER(ctl, client_idx).is_response_pending) && \
+        (xv_mc < sizeof(struct client) ==> ((const uint8_t *)&CTL_C(ctl, 0))[xv_mc] == __CPROVER_old(((const uint8_t *)&RC_OTHER(ctl, client_idx))[xv_mc]))))
 ;
 
 /* ------------------------------------------------------------------ ctl_process (public, self-recursive)
@@ -256,7 +259,7 @@ void ctl_process(struct ctl *ctl)
 __CPROVER_requires(XV_CTL_Z_LO)
 __CPROVER_requires(XV_CTL_Z_HI)
 __CPROVER_requires(CTL_MEM(ctl) && CTL_INV(ctl) && CTL_GHOST_RANGE && CTL_FOREIGN(ctl))
-__CPROVER_assigns(CTL_EP_GHOSTS, CS_GHOSTS, CR_GHOSTS, AC_GHOSTS, RC_GHOSTS, xv_ctl_g_fd, xv_ctl_g_reg, xv_ctl_g_ofd, xv_ctl_g_oreg, xv_ctl_g_opend, xv_ctl_g_oj, xv_ctl_ci, \
+__CPROVER_assigns(CTL_EP_GHOSTS, CS_GHOSTS, CR_GHOSTS, AC_GHOSTS, RC_GHOSTS, \
                   ctl->num_clients, __CPROVER_object_upto(&ctl->clients, XV_CTL_SIZEOF(ctl->clients)))
 /* PO[C14] ctl_process.table_invariant */
 __CPROVER_ensures(CTL_INV(ctl) && ctl->num_clients >= 0 && ctl->num_clients <= MAX_CLIENTS)
